@@ -1040,7 +1040,26 @@ C13.manifest = {
             "(C13_level_ge_singletons per level; C13_convert_back_preserves_Q: the renaming preserves modularity; "
             "level graphs are faithful to the first working graph, same total weight, so the constant m is right on "
             "every level); C13_levels_monotone_partial - the same for every input incl. multigraphs, measured on the "
-            "first working graph. (E) The guard of F23 (louvain.rs after 9619d10; first step of the model's "
+            "first working graph; SUPERSEDED (deep16) by C13_levels_monotone_all_inputs - for EVERY coherent input "
+            "graph, multigraphs included, modularity measured on the INPUT graph never decreases along the returned "
+            "levels and the first level is at least as good as the singletons: with weighted = true on the "
+            "multigraph's own weighted edge list, parallel edges counted individually "
+            "(C13_levels_monotone_weighted_all_inputs, full); with weighted = false a single-edge graph on its own "
+            "unit edge list and a multigraph on the SUPPORT of its edge list, one unit edge per adjacent pair "
+            "(C13_levels_monotone_unweighted_all_inputs; C13_support_is_support_of_edge_list), because convert_graph "
+            "collapses first (to_single_edges) and overwrites the weights with 1 afterwards. The transport: "
+            "C13_newman_collapse(_graph) - Newman's formula is invariant under collapsing parallel edges into one "
+            "edge with the sum of their weights, for every family of communities, every resolution, directed and "
+            "undirected, self-loops included (C13_collapse_regroups: every end-point selection weighs the same; "
+            "C13_collapse_keys_distinct / C13_collapse_weight: the list-level collapse has one entry per pair with "
+            "the pair's total weight); C13_to_single_edges_newman - through C15_to_single_edges_content the graph "
+            "built by to_single_edges has the modularity of the input multigraph and of the list-level collapse of "
+            "its edge list. REFUTED (evaluated counterexample, replayed on the implementation): for the modularity "
+            "that counts every parallel edge the unweighted multigraph statement is false - "
+            "C13_unweighted_multigraph_counterexample (undirected, edges 1-2, 3-4 once, 2-3, 1-4 four times, seed 0: "
+            "the returned level {1,2} {3,4} has modularity -3/10, the singletons -1/4), "
+            "C13_levels_monotone_by_multiplicity_refuted. Non-vacuity on a weighted multigraph: "
+            "C13_all_inputs_nonvacuous. (E) The guard of F23 (louvain.rs after 9619d10; first step of the model's "
             "louvain_partitions): C13_negative_weights_rejected - weighted = true and a stored edge with a real negative "
             "weight: louvain_partitions and louvain_communities return InvalidArgument for EVERY graph state, fuel, "
             "shuffle table, resolution and threshold; C13_guard_false_on_domain - on the domain of (B)-(D) (weights_ok) "
@@ -1051,17 +1070,20 @@ C13.manifest = {
             "C13_check_levels_sound (verified checker), C13_communities_is_last, C13_move_gain_newman(_directed), "
             "C13_accepted_move_increases_Q(_directed), C13_move_only_if_strictly_better, C13_model_move_increases_Q, "
             "C13_aggregation_preserves_Q, C13_strict_chain_bounded, C13_move_gain(_directed).",
-    "note": "PARTIAL in two places. (1) Fuel: the theorem is for sweep fuel >= N^N and level fuel > N; the executable "
+    "note": "PARTIAL in one place (two before deep16). (1) Fuel: the theorem is for sweep fuel >= N^N and level fuel > N; the executable "
             "instance of the model runs with SWEEP_FUEL = 300 and LEVEL_FUEL = 40, which the bound covers for N <= 4 "
             "only (generated cases go up to n = 10), so OutOfFuel stays a reported per-case outcome ('does not "
             "return', with the 2 s watchdog on the implementation); no better worst-case bound for Louvain's local "
             "moving is known. The theorem is '<> OutOfFuel': a Panic/Err remains possible only outside the domain "
             "(NaN weight with weighted=true, malformed shuffle table) or through the state-level modularity calls, "
-            "whose totality is C12's per-case observation 210. (2) For a MULTIGRAPH input monotonicity is proved on the "
-            "first working graph only (parallel edges collapsed into their sum by to_single_edges); the transport of "
-            "Newman's formula through that collapse is not proved (the oracle measures modularity on the "
-            "implementation's own edge list; observation 75 evaluates the exact check on single-edge inputs, where it "
-            "is now the theorem C13_levels_monotone). Domain of the numeric theorems: resolution >= 0, non-negative real "
+            "whose totality is C12's per-case observation 210. (2) NO LONGER PARTIAL (deep16): for a MULTIGRAPH input "
+            "monotonicity is now proved on the input graph (C13_levels_monotone_all_inputs; the transport of Newman's "
+            "formula through to_single_edges is C13_newman_collapse + C13_to_single_edges_newman). What remains is a "
+            "FINDING, not a gap: an unweighted call on a multigraph optimises the support graph (each adjacent pair "
+            "once), and its levels are NOT monotone for modularity(graph, weighted = false), which counts every "
+            "parallel edge (C13_unweighted_multigraph_counterexample; property C13 promises monotonicity on "
+            "single-edge graphs only, and the oracle checks it there). Observation 75 still evaluates the exact "
+            "check on single-edge inputs only (there it is the theorem C13_levels_monotone). Domain of the numeric theorems: resolution >= 0, non-negative real "
             "weights when weighted=true; negative weights under weighted=true are rejected by the modelled guard "
             "(InvalidArgument, F23) - generated (every 40th graph), compared with the model (outcome code 3 on both "
             "sides) and checked by the oracle (InvalidArgument iff weighted and a stored weight < 0); what stays outside "
